@@ -381,9 +381,15 @@ func (viso *VirtualISO) makeDirEntries(item *dirItem, joliet bool) error {
 			Identifier:           makeIdentifier(dirItem.name, joliet),
 		}
 
+		if item.childEntryIdx == nil {
+			item.childEntryIdx = make(map[string]int)
+		}
+
 		if joliet {
+			item.childEntryIdx[dirItem.path] = len(item.dirEntryJoliet)
 			item.dirEntryJoliet = append(item.dirEntryJoliet, entry)
 		} else {
+			item.childEntryIdx[dirItem.path] = len(item.dirEntry)
 			item.dirEntry = append(item.dirEntry, entry)
 		}
 	}
